@@ -7,7 +7,7 @@ from . import common as K
 PROP = "C06"
 RULE = ("cases: (a) sym / bin — a requested debug id (bin: debug id, code id, or both) and 0..7 candidates in arbitrary order drawn from every non-emptied fixture (ELF, ELF debug files, Mach-O thin and fat, "
         "dSYM DWARF, PE, PDB, object files, archives, scripts), copies of ELF fixtures whose build-id note has one byte flipped at each of the 20 positions (same debug id / different code id for bytes 16..19), "
-        "truncated copies, generated fat archives, images inside generated dyld shared caches (the requested build, another build under the same install path, the path missing) and generated standalone Mach-O files, missing / empty / garbage files; requests for ids of present files, of absent files, of flipped copies, and for the id of a present file with another age (lower or higher); "
+        "truncated copies, generated fat archives, images inside generated dyld shared caches (the requested build, another build under the same install path, the path missing) and generated standalone Mach-O files, generated ELF shared objects with build ids of 8, 16 (md5 / explicit), 20, 24 and 32 bytes, missing / empty / garbage files; requests for ids of present files, of absent files, of flipped copies, and for the id of a present file with another age (lower or higher); "
         "(b) fat — generated fat archives of 1..4 thin Mach-O fixtures (duplicates allowed) and the fixture fat archives, loaded with the id of a member, a foreign id or no disambiguator, the member "
         "ids computed independently from LC_UUID in Python; (c) companion — .gnu_debuglink targets (regular-debuglink, dwp-debuglink) and the dwz supplementary file of ls-linux under byte flips everywhere "
         "and specifically in each build-id byte, truncation, appended bytes, zeroed ranges, and replacement by other debug files. Observed: ids of what load_symbol_map / load_binary return, and whether lookups "
@@ -15,7 +15,8 @@ RULE = ("cases: (a) sym / bin — a requested debug id (bin: debug id, code id, 
         "single non-matching member, or a companion whose id does not match")
 TRUSTED = ["harness h_symbols/src/cand.rs: in-memory FileAndPathHelper; own crc32 (bitwise) as oracle for the debuglink CRC; `object`'s build_id() as oracle for the supplementary file's id",
            "vlib/c06.py computes Mach-O member ids (LC_UUID) and ELF debug ids from build-id bytes independently of samply",
-           "the standalone outcome of a candidate (does it parse, which id does it carry) is taken from samply itself (load_symbol_map_from_location / load_binary_at_location); id extraction per format is C19's concern"]
+           "the standalone outcome of a candidate (does it parse, which id does it carry) is taken from samply itself (load_symbol_map_from_location / load_binary_at_location); for ELF candidates with a GNU build-id note it is also "
+           "compared with what the note stands for (first 16 bytes, little-endian field swap, age 0; code id = the note in hex), read by vlib/c06.py; id extraction of the other formats is C19's concern"]
 ASSUMPTIONS = ["dyld shared cache candidates (CandidatePathInfo::InDyldCache) are exercised with generated single-file arm64 caches of 1..3 minimal images (no subcaches); real caches do not exist among the fixtures",
                "a companion whose id matches but whose damaged contents give no frames is recorded (verdict 4), not judged"]
 
@@ -96,6 +97,44 @@ def elf_build_id_offset(data):
 def debug_id_from_build_id(b):
     b = (b + bytes(16))[:16]
     return "%08X%04X%04X%s0" % (struct.unpack("<I", b[0:4])[0], struct.unpack("<H", b[4:6])[0], struct.unpack("<H", b[6:8])[0], b[8:16].hex().upper())
+
+
+_GENELF_KINDS = ["md5", "sha1", "0x1122334455667788", "0x00112233445566778899aabbccddeeff", "0x" + "a1b2c3d4" * 6, "0x" + "0f" * 32]
+
+
+def build_genelf(path, k, kind):
+    """a tiny shared object linked with `ld --build-id=<kind>`: build ids of 16 bytes (md5, explicit), 20 (sha1), 8, 24 and 32 bytes"""
+    src = path + ".s"
+    obj = path + ".o"
+    open(src, "w").write(".text\n.globl genelf_fn_%d\n.type genelf_fn_%d, @function\ngenelf_fn_%d:\n  .fill %d, 1, 0x90\n  ret\n.size genelf_fn_%d, .-genelf_fn_%d\n" % (k, k, k, 8 + k % 40, k, k))
+    try:
+        if subprocess.run(["gcc", "-c", src, "-o", obj], capture_output=True).returncode != 0:
+            return False
+        return subprocess.run(["ld", "-shared", obj, "-o", path, "--build-id=" + kind], capture_output=True).returncode == 0
+    finally:
+        for f in (src, obj):
+            try:
+                os.remove(f)
+            except OSError:
+                pass
+
+
+def elf_note_ids(path):
+    """(debug id, code id) that the GNU build-id note of a little-endian ELF file stands for - the Breakpad convention: the first 16 bytes (zero padded),
+    the first three fields read as little-endian integers, age 0; the code id is the note in hex - or None when the file is not such a file"""
+    try:
+        data = open(path, "rb").read()
+    except OSError:
+        return None
+    if data[:4] != b"\x7fELF" or len(data) < 6 or data[5] != 1:
+        return None
+    loc = elf_build_id_offset(data)
+    if loc is None:
+        return None
+    b = data[loc[0]:loc[0] + loc[1]]
+    if len(b) != loc[1]:
+        return None
+    return debug_id_from_build_id(b), b.hex()
 
 
 def macho_uuid_id(data):
@@ -252,6 +291,12 @@ class Scratch:
             open(p, "wb").write(build_macho(rest))
             self.made[desc] = p
             return p
+        if kind == "genelf":
+            k, bk = rest.split(":", 1)
+            if not build_genelf(p, int(k), bk):
+                open(p, "wb").write(b"")
+            self.made[desc] = p
+            return p
         if kind == "flip":
             rel, k, mask = rest.rsplit(":", 2)
             data = bytearray(open(os.path.join(FX, rel), "rb").read())
@@ -318,6 +363,9 @@ def gen(tier, rng, scale):
             if r >= 94:
                 cs.append(dyld_cand(present=rng.chance(3, 4)) if rng.chance(2, 3) else "macho:" + rng.choice(DYLD_UUIDS))
                 continue
+            if r >= 90:
+                cs.append("genelf:%d:%s" % (rng.below(6), rng.choice(_GENELF_KINDS)))
+                continue
             if r < 30:
                 cs.append("fx:" + rng.choice(files))
             elif r < 45 and target:
@@ -366,6 +414,15 @@ def gen(tier, rng, scale):
                 req = req[:-1] + rng.choice([a for a in ("0", "1", "2", "9", "a", "1f") if a != req[-1].lower()])
                 target = None
             dy_extra = []
+            if q == 6:
+                # an ELF file linked with an explicit 16-byte build id is the requested build; a decoy carries, as its build id, the 16 bytes of the
+                # requested debug id as they are printed (i.e. without the little-endian field swap): it is another build
+                bid = "%032x" % rng.below(1 << 128)
+                req = debug_id_from_build_id(bytes.fromhex(bid))
+                target = None
+                tdesc = "genelf:%d:0x%s" % (rng.below(6), bid)
+                if rng.chance(2, 3):
+                    dy_extra.append("genelf:%d:0x%s" % (rng.below(6), req[:32].lower()))
             if q in (4, 5):
                 # images of a dyld shared cache (CandidatePathInfo::InDyldCache): the requested build is the image the cache holds under that install path
                 # (q = 4) or a file on disk while the cache holds ANOTHER build under the same path (q = 5, a recording made before a system update)
@@ -586,12 +643,25 @@ def evaluate(cases):
         lines = {"cand": [], "fat": [], "companion": []}
         idx = {"cand": [], "fat": [], "companion": []}
         meta = {}
+        notes = {}
         for i, c in enumerate(cases):
             k = c["kind"]
             stats["kinds"][k] = stats["kinds"].get(k, 0) + 1
             if k in ("sym", "bin"):
                 toks = [sc.path(d) for d in c["items"]]
                 meta[i] = toks
+                # what the GNU build-id note of every ELF candidate says, read independently of samply (fixtures are read once)
+                nc = _state.setdefault("note_ids", {})
+                notes[i] = []
+                for t in toks:
+                    if t.startswith(("@", "dyld=")):
+                        notes[i].append(None)
+                    elif t.startswith(FX):
+                        if t not in nc:
+                            nc[t] = elf_note_ids(t)
+                        notes[i].append(nc[t])
+                    else:
+                        notes[i].append(elf_note_ids(t))
                 lines["cand"].append("%s %s %s" % (k, c["req"], " ".join(toks)))
                 idx["cand"].append(i)
                 h = str(len(toks))
@@ -653,6 +723,23 @@ def evaluate(cases):
                 pre[i] = 1
                 continue
             c["_out"] = outs[i][:600]
+            # "carries that ID": the id samply reads from an ELF candidate is the one its build-id note stands for
+            wrong = None
+            for s_, nid, t_ in zip(st, notes.get(i, []), toks):
+                if nid and s_.startswith("ok:"):
+                    if k == "sym":
+                        if s_[3:].upper() != nid[0]:
+                            wrong = (t_, s_, nid)
+                    else:
+                        d_, cid_ = s_[3:].split(":")
+                        if (d_ != "-" and d_.upper() != nid[0]) or (cid_ != "-" and cid_.lower() != nid[1]):
+                            wrong = (t_, s_, nid)
+            if wrong:
+                stats["note_id_mismatch"] = stats.get("note_id_mismatch", 0) + 1
+                c["_out"] = "samply reads %s from %s whose GNU build-id note stands for debug id %s / code id %s" % (wrong[1], os.path.basename(wrong[0]), wrong[2][0], wrong[2][1])
+                pre[i] = 12
+                continue
+            stats["elf_ids_checked_against_note"] = stats.get("elf_ids_checked_against_note", 0) + sum(1 for s_, nid in zip(st, notes.get(i, [])) if nid and s_.startswith("ok:"))
             if k == "sym":
                 cs = K.coq_list(["CErr" if s == "err" else "(COk %d)" % intern(s[3:]) for s in st])
                 if sel.startswith("sel:"):
